@@ -1,7 +1,20 @@
 import os
+
 SOLVER = os.environ.get("C01_SOLVER", "cadical")
+TMO = os.environ.get("C01_TIMEOUT")
+WIDTHS = (8, 16, 32, 64)
+
+# known findings of this property that are not yet repaired in /repo: blocking defines (each narrows exactly one defect)
+KF = {
+    "digit_div": {"KF_DIGIT_DIV_POW2_REMHI": None},
+    "export_le_bin": {"KF_EXPORT_LE_BIN_TRUNC": None},
+    "import_be_hex": {"KF_IMPORT_BE_HEX_ODD": None},
+}
+if os.environ.get("C01_NO_KF"):
+    KF = {k: {} for k in KF}
 
 META = {"bounds": "", "outside": "", "assumptions": [], "harness_functions": []}
+
 
 def cfg(w, cc):
     d = {"BN_DIGIT_BIT_CNT": w, "BN_BIT_LEN": 4 * w}
@@ -9,30 +22,181 @@ def cfg(w, cc):
         d["BN_CC_MULL_DIV"] = None
     return d
 
-def cfgname(w, cc):
+
+def tag(w, cc):
     return "w%d%s" % (w, "cc" if cc else "pt")
 
+
+def memset_uw(w, nset=None):
+    n = w // 2 + 1
+    return ["v_memmove.0:%d" % n, "v_memmove.1:%d" % n, "v_memcpy.0:%d" % n, "v_memset.0:%d" % ((nset or (w // 2)) + 1)]
+
+
+def J(name, src, defs, unwind, shape, desc, solver=None, **kw):
+    j = {"name": name, "src": src, "defs": defs, "unwind": unwind, "solver": solver or SOLVER, "shape": shape, "desc": desc}
+    j.update(kw)
+    if TMO:
+        j["timeout"] = int(TMO)
+    return j
+
+
+# ------------------------------------------------------------------ layer 1: digit primitives
 def digit_jobs(tier):
     out = []
-    for w in (8, 16, 32, 64):
+    for w in WIDTHS:
         for cc in (1, 0):
-            base = cfg(w, cc)
-            tag = cfgname(w, cc)
-            if cc:  # bit primitives and gcd do not depend on BN_CC_MULL_DIV
-                out.append({"name": "dig-bits-%s" % tag, "src": "digit.c", "defs": dict(base, OP_BITS=None), "unwind": w + 2,
-                            "solver": "cadical", "shape": "digit width %d, all digit values" % w,
-                            "desc": "bn_digit_bits/ctz/clz/ffs/is_pow2/is_even/is_odd == bit-loop reference"})
-            slv = SOLVER if w <= 16 else "cvc5"
-            out.append({"name": "dig-mult-%s" % tag, "src": "digit.c", "defs": dict(base, OP_MULT=None), "unwind": w + 2,
-                        "solver": slv, "shape": "digit width %d, %s multiply, all a,b" % (w, "compiler" if cc else "portable"),
-                        "desc": "bn_digit_mult__int(a,b) == (hi,lo) of the native double-width product"})
-            out.append({"name": "dig-div-%s" % tag, "src": "digit.c", "defs": dict(base, OP_DIV=None), "unwind": 2 * w + 3,
-                        "solver": slv, "shape": "digit width %d, %s divide, all lo,hi,d" % (w, "compiler" if cc else "portable"),
-                        "desc": "bn_digit_div__int: EINVAL for d=0, else hi:lo == q*d+r, r<d, remainder_hi == 0"})
-            out.append({"name": "dig-divshort-%s" % tag, "src": "digit.c", "defs": dict(base, OP_DIVSHORT=None), "unwind": 2 * w + 3,
-                        "solver": slv, "shape": "digit width %d, %s divide, all lo,hi,d" % (w, "compiler" if cc else "portable"),
-                        "desc": "bn_digit_div__int_short == low quotient digit (direct for hi<d, via bn_digit_div__int otherwise)"})
+            base, t = cfg(w, cc), tag(w, cc)
+            how = "compiler double-width" if cc else "portable"
+            if cc:  # independent of BN_CC_MULL_DIV
+                out.append(J("dig-bits-%s" % t, "digit.c", dict(base, OP_BITS=None), w + 2,
+                             "digit width %d, all digit values" % w,
+                             "bn_digit_bits/ctz/clz/ffs/is_pow2/is_even/is_odd == bit-loop reference"))
+            # ---- multiply
+            if cc or w == 8:
+                out.append(J("dig-mult-%s" % t, "digit.c", dict(base, OP_MULT=None), w + 2,
+                             "digit width %d, %s multiply, all a,b" % (w, how),
+                             "bn_digit_mult__int(a,b) == (hi,lo) of the native double-width product"))
+            else:
+                # portable Knuth-M multiply at >= 16 bit: fast paths against the native product; general path against the
+                # schoolbook identity on half digits (same-width half products), split by operand order
+                modes = [("fast", {"MODE_FAST": None}, "a or b in {0,1,2^k}", "cadical", 1),
+                         ("gt", {"MODE_GEN": None, "ORACLE_HALF": None, "ORDER_GT": None}, "a > b, neither a power of two", "kissat", 3),
+                         ("le", {"MODE_GEN": None, "ORACLE_HALF": None, "ORDER_LE": None}, "a <= b, neither a power of two", "kissat", 3)]
+                for mn, md, ms, slv, cost in modes:
+                    if w == 64 and mn != "fast":
+                        if tier != "thorough":
+                            continue
+                    out.append(J("dig-mult-%s-%s" % (t, mn), "digit.c", dict(base, OP_MULT=None, **md), w + 2,
+                                 "digit width %d, portable multiply, %s" % (w, ms),
+                                 "bn_digit_mult__int(a,b) == (hi,lo) of " + ("the native product" if mn == "fast" else
+                                 "the schoolbook sum of half-digit products evaluated in double width"),
+                                 solver=slv, cost=cost * w, timeout=(1500 if w == 64 else 300)))
+            # ---- divide
+            if w == 8:
+                out.append(J("dig-div-%s" % t, "digit.c", dict(base, OP_DIV=None, **(KF["digit_div"] if not cc else {})), 2 * w + 3,
+                             "digit width 8, %s divide, all lo,hi,d" % how,
+                             "bn_digit_div__int: EINVAL for d=0, else hi:lo == q*d+r, r<d, remainder_hi == 0"))
+                out.append(J("dig-divshort-%s" % t, "digit.c", dict(base, OP_DIVSHORT=None), 2 * w + 3,
+                             "digit width 8, %s divide, all lo,hi,d" % how,
+                             "bn_digit_div__int_short == low quotient digit (direct for hi<d, via bn_digit_div__int otherwise)"))
+            else:
+                out.append(J("dig-div-%s-zero" % t, "digit.c", dict(base, OP_DIV=None, MODE_ZERO=None), 2 * w + 3,
+                             "digit width %d, %s divide, d = 0, all lo,hi" % (w, how), "bn_digit_div__int: EINVAL for d=0"))
+                if not cc:
+                    out.append(J("dig-div-%s-pow2" % t, "digit.c", dict(base, OP_DIV=None, MODE_P2=None, **KF["digit_div"]), 2 * w + 3,
+                                 "digit width %d, portable divide, hi != 0, d = 2^k, all lo,hi,k" % w,
+                                 "bn_digit_div__int shift path: hi:lo == q*d+r, r<d", solver="kissat", cost=w))
+    # public wrappers (NULL-tolerant out-parameters) at 8 bit, portable build
+    base = cfg(8, 0)
+    out.append(J("dig-mult-public-w8pt", "digit.c", dict(base, OP_MULT=None, PUBLIC_WRAPPER=None), 10,
+                 "digit width 8, bn_digit_mult, all a,b", "bn_digit_mult == native product"))
+    out.append(J("dig-div-public-w8pt", "digit.c", dict(base, OP_DIV=None, PUBLIC_WRAPPER=None, **KF["digit_div"]), 19,
+                 "digit width 8, bn_digit_div, all lo,hi,d", "bn_digit_div: EINVAL for d=0, else hi:lo == q*d+r, r<d, remainder_hi == 0"))
     return out
 
+
+# ------------------------------------------------------------------ layer 2: digit-array kernels
+def max_ac(w, extra):
+    return min(4, 128 // w - (1 if extra else 0))
+
+
+def kern_jobs(tier):
+    out = []
+    for w in WIDTHS:
+        base, t = cfg(w, 1), tag(w, 1)
+        full = (tier == "thorough") or w == 8
+        acs = list(range(1, max_ac(w, False) + 1))
+        # --- linear kernels (independent of BN_CC_MULL_DIV)
+        def lin(k, ac, bc, extra=None, alias=False):
+            d = dict(base, AC=ac, BC=bc, VDIG=ac)
+            d[k] = None
+            if alias:
+                d["ALIAS"] = None
+            return J("kern-%s-%s-a%db%d%s" % (k[2:].lower(), t, ac, bc, "-alias" if alias else ""), "kern.c", d, max(ac, bc) + 2,
+                     "digit width %d, a: %d digits, b: %d digits%s, all digit values" % (w, ac, bc, ", b aliases a" if alias else ""),
+                     extra or k, unwindset=memset_uw(w))
+        pairs = [(a, b) for a in acs for b in range(1, 5)] if full else [(1, 1), (2, 1), (2, 2), (1, 2)]
+        for ac, bc in pairs:
+            if bc > ac + 1 or bc > 4:
+                continue
+            out.append(lin("K_ADD", ac, bc, "bn_digits_add: (a+b) mod 2^cap, carry; EOVERFLOW if b longer"))
+            out.append(lin("K_SUB", ac, bc, "bn_digits_sub: (a-b) mod 2^cap, borrow; EOVERFLOW if b longer"))
+        for ac in (acs if full else acs[:2]):
+            out.append(lin("K_ADD", ac, ac, "bn_digits_add with b == a (doubling), carry", alias=True))
+            out.append(lin("K_SUB", ac, ac, "bn_digits_sub with b == a gives zero, no borrow", alias=True))
+            out.append(lin("K_CALC", ac, ac, "bn_digits_calc_digits, bn_digits_cmp"))
+            out.append(lin("K_ADDD", ac, 1, "bn_digits_add_digit: (a+d) mod 2^cap, carry"))
+            out.append(lin("K_SUBD", ac, 1, "bn_digits_sub_digit: (a-d) mod 2^cap, borrow"))
+            out.append(lin("K_LSH", ac, 1, "bn_digits_l_shift for every shift < width of the array"))
+            out.append(lin("K_RSH", ac, 1, "bn_digits_r_shift for every shift < width of the array"))
+        # --- multiply-accumulate kernels: (a) digit multiply uninterpreted (carry logic for every multiply function),
+        #     (b) real compiler multiply (BN_CC_MULL_DIV) against the partial-product sum
+        for variant, vd, vs in (("uf", {"STUB_bn_digit_mult__int": None}, "digit multiply = uninterpreted function <= (B-1)^2"),
+                                ("cc", {}, "compiler double-width multiply")):
+            for k, extra in (("K_MULD", False), ("K_ADDMUL", False), ("K_SUBMUL", True)):
+                m = max_ac(w, extra)
+                shapes = [(a, b) for a in range(1, m + 1) for b in range(1, a + 1)]
+                if k == "K_MULD":
+                    shapes = [(a, 1) for a in range(1, m + 1)]
+                if not full:
+                    shapes = [s for s in shapes if s in ((1, 1), (2, 1), (2, 2), (3, 2))][:3]
+                for ac, bc in shapes:
+                    d = dict(base, AC=ac, BC=bc, VDIG=ac + (1 if extra else 0), **vd)
+                    d[k] = None
+                    out.append(J("kern-%s-%s-%s-a%db%d" % (k[2:].lower(), variant, t, ac, bc), "kern.c", d, (w + 2) if k == "K_MULD" else max(ac, bc) + 2,
+                                 "digit width %d, a: %d digits, b: %d digits, all digits and multiplier digit; %s" % (w, ac, bc, vs),
+                                 {"K_MULD": "bn_digits_mult_digit__int: a == a*d mod 2^cap", "K_ADDMUL": "bn_digits_add_digit_mult__int: a == a+b*d mod 2^cap",
+                                  "K_SUBMUL": "bn_digits_sub_digit_mult__int: a' + b*d == a + borrow*2^cap"}[k] + " (sum of digit products)",
+                                 unwindset=memset_uw(w), cost=ac * bc))
+    return out
+
+
+# ------------------------------------------------------------------ layer 2b: import / export
+def impexp_jobs(tier):
+    out = []
+    for w in WIDTHS:
+        base, t, sz = cfg(w, 1), tag(w, 1), w // 8
+        full = (tier == "thorough")
+        def X(op, ac, dg, bs, fl, desc, kf=None):
+            d = dict(base, AC=ac, DG=dg, BS=bs, FLAGS=fl)
+            d[op] = None
+            if kf:
+                d.update(KF[kf])
+            return J("io-%s-%s-c%dd%d-b%d-f%d" % (op[2:].lower().replace("_", ""), t, ac, dg, bs, fl), "impexp.c", d, max(bs, ac * sz, 4) + 3,
+                     "digit width %d, capacity %d digits, %d significant digits, buffer %d bytes, flags %d; all digits, stale digits and bytes"
+                     % (w, ac, dg, bs, fl), desc, unwindset=memset_uw(w, max(bs, 32)))
+        acs = [a for a in (1, 2) if (a + 1) * w <= 128]
+        dense = full or w == 8
+        if not full:
+            acs = [2] if w == 8 else [1]
+        for ac in acs:
+            cap = ac * sz
+            sizes = range(0, cap + 2) if dense else sorted(set([0, 1, cap, cap + 1]))
+            for bs in sizes:
+                out.append(X("X_IMP_BE_BIN", ac, min(1, ac), bs, 0, "bn_import_be_bin: value == big-endian bytes, or EINVAL (empty) / EOVERFLOW (too long)"))
+                out.append(X("X_IMP_LE_BIN", ac, min(1, ac), bs, 0, "bn_import_le_bin: value == little-endian bytes, or EINVAL / EOVERFLOW"))
+            hsizes = range(0, 2 * cap + 3) if dense else sorted(set([0, 1, 2, 3, 2 * cap, 2 * cap + 1]))
+            for bs in hsizes:
+                if bs > 20:
+                    continue
+                out.append(X("X_IMP_BE_HEX", ac, min(1, ac), bs, 0, "bn_import_be_hex: value == hex number (non-hex characters skipped), or EINVAL / EOVERFLOW", kf="import_be_hex"))
+                out.append(X("X_IMP_LE_HEX", ac, min(1, ac), bs, 0, "bn_import_le_hex: value == little-endian hex byte string (even digit count), or EINVAL / EOVERFLOW"))
+            for dg in range(0, ac + 1):
+                need = dg * sz
+                sizes = sorted(set(s for s in (list(range(0, need + 2)) if dense else [0, 1, need - 1, need, need + 1]) if s >= 0))
+                for bs in sizes:
+                    for fl in (0, 1):
+                        out.append(X("X_EXP_BE_BIN", ac, dg, bs, fl, "bn_export_be_bin: bytes denote the value, size reported; EOVERFLOW iff it does not fit; EINVAL empty buffer"))
+                        out.append(X("X_EXP_LE_BIN", ac, dg, bs, fl, "bn_export_le_bin: bytes denote the value, size reported; EOVERFLOW iff it does not fit; EINVAL empty buffer", kf="export_le_bin"))
+                hs = sorted(set(s for s in (list(range(0, 2 * need + 4)) if full else [1, 2, 3, 2 * need - 1, 2 * need, 2 * need + 1, 2 * need + 2]) if s >= 0))
+                for bs in hs:
+                    if bs > 36:
+                        continue
+                    for fl in (0, 1):
+                        out.append(X("X_EXP_BE_HEX", ac, dg, bs, fl, "bn_export_be_hex: lower-case hex text denotes the value, NUL if room, EOVERFLOW iff too small, EINVAL below 2"))
+                        out.append(X("X_EXP_LE_HEX", ac, dg, bs, fl, "bn_export_le_hex: little-endian hex byte text denotes the value, NUL if room, EOVERFLOW iff too small"))
+    return out
+
+
 def jobs(tier):
-    return digit_jobs(tier)
+    return digit_jobs(tier) + kern_jobs(tier) + impexp_jobs(tier)
